@@ -155,7 +155,7 @@ def counterexample(scratch, harness, timeout):
     rc, out, secs = run(cmd, cwd=scratch.repo, timeout=timeout)
     draws = None
     check = None
-    for m in re.finditer(r"/// Check for `([^`]*)`: (.*)\n#\[test\]\nfn \w+\(\) \{\n\s*let concrete_vals: Vec<Vec<u8>> = vec!\[(.*?)\n\s*\];", out, re.S):
+    for m in re.finditer(r"/// Check for `([^`]*)`: ([^\n]*)\n(?:///[^\n]*\n)*#\[test\]\nfn \w+\(\) \{\n\s*let concrete_vals: Vec<Vec<u8>> = vec!\[(.*?)\n\s*\];", out, re.S):
         kind, desc, body = m.group(1), m.group(2), m.group(3)
         if kind == "cover":
             continue
